@@ -1,6 +1,7 @@
 import PybropsModel.J
 import PybropsModel.Model.RRBlup
 import PybropsModel.Model.GenomicSpec
+import PybropsModel.Model.RRSpec
 open Lean
 
 namespace Drv.C04
@@ -24,6 +25,8 @@ def ofORat : Option Rat → Json := J.ofOpt J.ofRat
 
 def REL : Rat := mkRat 1 1000000000
 def ABS : Rat := mkRat 1 1000000000000
+def ULPREL : Rat := mkRat 1 (2 ^ 45)
+def ULPABS : Rat := mkRat 1 (2 ^ 70)
 
 def absQ := GSpec.absQ
 def maxQ := GSpec.maxQ
@@ -119,6 +122,7 @@ structure View where
   grpIn : Option (List Int)
   grpOut : Option (List Int)
   labelled : Bool
+  exact : Bool
 
 def parseView (j : Json) : J.R View := do
   pure { name := ← J.fieldD j "name" J.str "?"
@@ -130,7 +134,8 @@ def parseView (j : Json) : J.R View := do
          taxaOut := ← J.fieldOpt j "taxa_out" (J.list J.str)
          grpIn := ← J.fieldOpt j "grp_in" (J.list J.int)
          grpOut := ← J.fieldOpt j "grp_out" (J.list J.int)
-         labelled := ← J.fieldD j "labelled" J.bool true }
+         labelled := ← J.fieldD j "labelled" J.bool true
+         exact := ← J.fieldD j "exact" J.bool false }
 
 /-- every view: values = definition on that view's raw genotypes; labelled views carry the input's
     labels, raw-array views carry none -/
@@ -142,7 +147,11 @@ def opSpecValues : J.Op := fun j => do
   let ploidy ← J.field j "ploidy" J.nat
   let views ← J.field j "views" (J.list parseView)
   let res := views.map (fun v =>
-    let okv := GSpec.specValues REL ABS v.mode beta ua ud v.X t ploidy v.g v.out
+    -- `exact`: all inputs dyadic and every intermediate representable: the float result must be the
+    -- defined rational up to a few units in the last place (rel 2^-45, abs 2^-70; a reassociated or rescaled
+    -- evaluation stays inside, anything of the size of a float32 rounding or a dropped term does not)
+    let okv := if v.exact then GSpec.specValues ULPREL ULPABS v.mode beta ua ud v.X t ploidy v.g v.out
+               else GSpec.specValues REL ABS v.mode beta ua ud v.X t ploidy v.g v.out
     let okl := if v.labelled then v.taxaOut == v.taxaIn && v.grpOut == v.grpIn
                else v.taxaOut.isNone && v.grpOut.isNone
     (okv, okl, v.name))
@@ -226,14 +235,9 @@ def opGs : J.Op := fun j => do
   let sweeps := gsSweeps A b atol maxiter (decide (atol < atol + atol)) (b.map (fun _ => (0:Rat)))
   pure <| J.obj [("x", J.ofList J.ofRat x), ("sweeps", J.ofNat sweeps)]
 
-def energyQ (A : List (List Rat)) (b x : List Rat) : Rat :=
-  (1/2 : Rat) * dot x (A.map (fun r => dot r x)) - dot b x
-
-def residInf (A : List (List Rat)) (b x : List Rat) : Rat :=
-  (List.zipWith (fun r bi => absQ (bi - dot r x)) A b).foldl maxQ 0
-
 /-- Spec for a direct `gauss_seidel(A, b, atol, maxiter)` call with symmetric A, positive diagonal:
-    the returned iterate never has larger energy ½xᵀAx − bᵀx than the all-zero start -/
+    the returned iterate never has larger energy ½xᵀAx − bᵀx than the all-zero start
+    (`RSpec.specGs`; a non-finite iterate is rejected here) -/
 def opSpecGs : J.Op := fun j => do
   let A ← J.field j "A" rmat
   let b ← J.field j "b" (J.list J.rat)
@@ -241,10 +245,8 @@ def opSpecGs : J.Op := fun j => do
   if x.any Option.isNone then
     return J.obj [("ok", J.ofBool false), ("detail", J.ofStr "non-finite iterate")]
   let xs := x.filterMap id
-  let e := energyQ A b xs
-  let slack := REL * (1 + absQ (dot b xs))
-  pure <| J.obj [("ok", J.ofBool (xs.length == b.length && decide (e ≤ slack))),
-                 ("detail", J.ofStr s!"energy={e} len={xs.length}")]
+  pure <| J.obj [("ok", J.ofBool (RSpec.specGs REL A b xs)),
+                 ("detail", J.ofStr s!"energy={RSpec.energyQ A b xs} len={xs.length}")]
 
 def opMl0 : J.Op := fun j => do
   let y ← J.field j "y" (J.list J.rat)
@@ -268,10 +270,7 @@ def opFitWrap : J.Op := fun j => do
   pure <| J.obj [("beta", ofRMat beta), ("u_a", ofRMat ua), ("ispoly", J.ofList J.ofBool (isPoly Z p))]
 
 /-- Spec of a fitted model, evaluated on the implementation's `beta`, `u_a` with the ridge the
-    implementation chose (per trait):
-    (1) intercept = training mean; (2) monomorphic markers have effect exactly 0;
-    (3) penalised SSE(û) ≤ penalised SSE(0); (4) if n > (number of polymorphic markers):
-        ‖(Z'Z + ridge I)û − Z'(y − ȳ)‖∞ ≤ max(reltol·max(1,‖Z'y_c‖∞), 2·atol·max_i Σ_{j≠i}|A_ij|) -/
+    implementation chose (per trait): `RSpec.specFit` (four clauses; non-finite coefficients are rejected here) -/
 def opSpecFit : J.Op := fun j => do
   let Y ← J.field j "Y" rmat
   let Z ← J.field j "Z" rmat
@@ -288,35 +287,15 @@ def opSpecFit : J.Op := fun j => do
                   ("clauses", J.obj [])]
   let beta := betaO.map (·.filterMap id)
   let ua := uaO.map (·.filterMap id)
+  let v := RSpec.specFit REL ABS reltol atol Y Z p t ridges beta ua checkNE
   let n := Z.length
-  let mask := isPoly Z p
-  let npoly := mask.count true
-  let Zp := selectCols mask Z
-  let shapes := beta.length == 1 && (beta.headD []).length == t && ua.length == p && ua.all (·.length == t)
-  let c1 := (List.range t).all (fun k => closeQ REL ABS (entry beta 0 k) (meanQ (colQ Y k)))
-  let c2 := (List.zip mask ua).all (fun mr => mr.1 || mr.2.all (· == 0))
-  let perTrait := (List.range t).map (fun k =>
-    let y := colQ Y k
-    let ridge := ridges.getD k 0
-    let u := Np.compress mask (colQ ua k)
-    let e1 := psse y Zp ridge u
-    let e0 := psse y Zp ridge (u.map (fun _ => 0))
-    let A := ztzPlusRidge Zp npoly ridge
-    let b := zty Zp npoly (center y)
-    let res := residInf A b u
-    let binf := b.foldl (fun m v => maxQ m (absQ v)) 0
-    let off := (A.zipIdx.map (fun ri => ((ri.1.zipIdx.filter (fun cj => cj.2 != ri.2)).map (fun cj => absQ cj.1)).sum)).foldl maxQ 0
-    let tolr := maxQ (reltol * maxQ 1 binf) (2 * atol * off)
-    (decide (e1 ≤ e0 + REL * (1 + absQ e0)), decide (res ≤ tolr), res, tolr, e1, e0))
-  let c3 := perTrait.all (·.1)
-  let wellDet := checkNE && decide (npoly < n)
-  let c4 := !wellDet || perTrait.all (·.2.1)
-  let ok := shapes && c1 && c2 && c3 && c4
-  let det := perTrait.map (fun r => s!"res={r.2.2.1} tol={r.2.2.2.1}")
-  pure <| J.obj [("ok", J.ofBool ok),
-    ("clauses", J.obj [("shapes", J.ofBool shapes), ("intercept_mean", J.ofBool c1), ("monomorphic_zero", J.ofBool c2),
-                        ("descent", J.ofBool c3), ("normal_eq", J.ofBool c4), ("well_determined", J.ofBool wellDet)]),
-    ("detail", J.ofStr s!"shapes={shapes} intercept={c1} mono0={c2} descent={c3} normal_eq={c4} n={n} npoly={npoly} {det}")]
+  let npoly := (isPoly Z p).count true
+  let det := v.perTrait.map (fun r => s!"res={r.2.2.1} tol={r.2.2.2.1}")
+  pure <| J.obj [("ok", J.ofBool v.ok),
+    ("clauses", J.obj [("shapes", J.ofBool v.shapes), ("intercept_mean", J.ofBool v.intercept),
+                        ("monomorphic_zero", J.ofBool v.mono), ("descent", J.ofBool v.descent),
+                        ("normal_eq", J.ofBool v.normalEq), ("well_determined", J.ofBool v.wellDet)]),
+    ("detail", J.ofStr s!"shapes={v.shapes} intercept={v.intercept} mono0={v.mono} descent={v.descent} normal_eq={v.normalEq} n={n} npoly={npoly} {det}")]
 
 def ops : List (String × J.Op) :=
   [("c04.lin", opLin), ("c04.spec_values", opSpecValues), ("c04.spec_stats", opSpecStats),
